@@ -210,7 +210,38 @@ pub const BATCH_KINDS: [&str; 25] = [
 
 type Mutant<D> = (Op<D>, Vec<usize>);
 
-fn mutants<D: Clone + PartialEq>(kind: &str, op: &Op<D>, idx: &[usize], n: usize, foreign: &[D; 2], tree_leaves: &[D]) -> Vec<Mutant<D>> {
+/// Chooses which of the mutants of a kind are materialised: all of them (enumerated sub-checks) or at
+/// most `max` spread evenly over the list, always including the first and the last (sampled trees,
+/// where a kind can apply at thousands of places of a 255-position opening).
+pub struct Selector {
+    i: usize,
+    total: usize,
+    max: usize,
+    counting: bool,
+}
+impl Selector {
+    fn take(&mut self) -> bool {
+        let i = self.i;
+        self.i += 1;
+        if self.counting {
+            return false;
+        }
+        if self.total <= self.max {
+            return true;
+        }
+        i == 0 || i + 1 == self.total || (i * self.max) / self.total != ((i - 1) * self.max) / self.total
+    }
+}
+
+macro_rules! push {
+    ($o:ident, $s:ident, $e:expr) => {
+        if $s.take() {
+            $o.push($e);
+        }
+    };
+}
+
+fn mutants<D: Clone + PartialEq>(kind: &str, op: &Op<D>, idx: &[usize], n: usize, foreign: &[D; 2], tree_leaves: &[D], sel: &mut Selector) -> Vec<Mutant<D>> {
     let mut out: Vec<Mutant<D>> = vec![];
     let k = idx.len();
     let with_op = |f: &dyn Fn(&mut Op<D>)| {
@@ -221,24 +252,24 @@ fn mutants<D: Clone + PartialEq>(kind: &str, op: &Op<D>, idx: &[usize], n: usize
     match kind {
         "leaf-foreign" => {
             for j in 0..k {
-                out.push(with_op(&|o| o.leaves[j] = foreign[0].clone()));
+                push!(out, sel, with_op(&|o| o.leaves[j] = foreign[0].clone()));
             }
         },
         "leaf-substitute" => {
             for j in 0..k {
-                out.push(with_op(&|o| o.leaves[j] = tree_leaves[idx[j] ^ 1].clone()));
-                out.push(with_op(&|o| o.leaves[j] = tree_leaves[(idx[j] + n / 2) % n].clone()));
+                push!(out, sel, with_op(&|o| o.leaves[j] = tree_leaves[idx[j] ^ 1].clone()));
+                push!(out, sel, with_op(&|o| o.leaves[j] = tree_leaves[(idx[j] + n / 2) % n].clone()));
             }
         },
         "leaf-swap" => {
             for j in 0..k.saturating_sub(1) {
-                out.push(with_op(&|o| o.leaves.swap(j, j + 1)));
+                push!(out, sel, with_op(&|o| o.leaves.swap(j, j + 1)));
             }
         },
         "node-foreign" => {
             for v in 0..op.nodes.len() {
                 for j in 0..op.nodes[v].len() {
-                    out.push(with_op(&|o| o.nodes[v][j] = foreign[0].clone()));
+                    push!(out, sel, with_op(&|o| o.nodes[v][j] = foreign[0].clone()));
                 }
             }
         },
@@ -246,9 +277,9 @@ fn mutants<D: Clone + PartialEq>(kind: &str, op: &Op<D>, idx: &[usize], n: usize
             for v in 0..op.nodes.len() {
                 for j in 0..op.nodes[v].len() {
                     // another value of the same tree: a leaf, or the neighbouring node of the opening
-                    out.push(with_op(&|o| o.nodes[v][j] = tree_leaves[(v + j) % n].clone()));
+                    push!(out, sel, with_op(&|o| o.nodes[v][j] = tree_leaves[(v + j) % n].clone()));
                     if op.nodes[v].len() > 1 {
-                        out.push(with_op(&|o| o.nodes[v].swap(j, (j + 1) % op.nodes[v].len())));
+                        push!(out, sel, with_op(&|o| o.nodes[v].swap(j, (j + 1) % op.nodes[v].len())));
                     }
                 }
             }
@@ -261,7 +292,7 @@ fn mutants<D: Clone + PartialEq>(kind: &str, op: &Op<D>, idx: &[usize], n: usize
                     if !idx.contains(&p) {
                         let mut i2 = idx.to_vec();
                         i2[j] = p;
-                        out.push((op.clone(), i2));
+                        push!(out, sel, (op.clone(), i2));
                     }
                 }
             }
@@ -272,7 +303,7 @@ fn mutants<D: Clone + PartialEq>(kind: &str, op: &Op<D>, idx: &[usize], n: usize
                     if !idx.contains(&p) {
                         let mut i2 = idx.to_vec();
                         i2[j] = p;
-                        out.push((op.clone(), i2));
+                        push!(out, sel, (op.clone(), i2));
                     }
                 }
             }
@@ -282,7 +313,7 @@ fn mutants<D: Clone + PartialEq>(kind: &str, op: &Op<D>, idx: &[usize], n: usize
                 for p in [usize::MAX, usize::MAX - 1, 1usize << 63] {
                     let mut i2 = idx.to_vec();
                     i2[j] = p;
-                    out.push((op.clone(), i2));
+                    push!(out, sel, (op.clone(), i2));
                 }
             }
         },
@@ -291,7 +322,7 @@ fn mutants<D: Clone + PartialEq>(kind: &str, op: &Op<D>, idx: &[usize], n: usize
                 for j in 0..k {
                     let mut i2 = idx.to_vec();
                     i2[j] = idx[(j + 1) % k];
-                    out.push((op.clone(), i2));
+                    push!(out, sel, (op.clone(), i2));
                 }
             }
             // the same position listed twice with the leaf repeated
@@ -299,24 +330,24 @@ fn mutants<D: Clone + PartialEq>(kind: &str, op: &Op<D>, idx: &[usize], n: usize
             i2.push(idx[0]);
             let mut o = op.clone();
             o.leaves.push(op.leaves[0].clone());
-            out.push((o, i2));
+            push!(out, sel, (o, i2));
         },
-        "depth-0" => out.push(with_op(&|o| o.depth = 0)),
-        "depth-minus1" => out.push(with_op(&|o| o.depth = o.depth.wrapping_sub(1))),
-        "depth-plus1" => out.push(with_op(&|o| o.depth += 1)),
-        "depth-63" => out.push(with_op(&|o| o.depth = 63)),
+        "depth-0" => push!(out, sel, with_op(&|o| o.depth = 0)),
+        "depth-minus1" => push!(out, sel, with_op(&|o| o.depth = o.depth.wrapping_sub(1))),
+        "depth-plus1" => push!(out, sel, with_op(&|o| o.depth += 1)),
+        "depth-63" => push!(out, sel, with_op(&|o| o.depth = 63)),
         "depth-64" => {
-            out.push(with_op(&|o| o.depth = 64));
-            out.push(with_op(&|o| o.depth = 65));
+            push!(out, sel, with_op(&|o| o.depth = 64));
+            push!(out, sel, with_op(&|o| o.depth = 65));
         },
         "depth-255" => {
-            out.push(with_op(&|o| o.depth = 255));
-            out.push(with_op(&|o| o.depth = 128));
+            push!(out, sel, with_op(&|o| o.depth = 255));
+            push!(out, sel, with_op(&|o| o.depth = 128));
         },
         "drop-node" => {
             for v in 0..op.nodes.len() {
                 for j in 0..op.nodes[v].len() {
-                    out.push(with_op(&|o| {
+                    push!(out, sel, with_op(&|o| {
                         o.nodes[v].remove(j);
                     }));
                 }
@@ -324,45 +355,45 @@ fn mutants<D: Clone + PartialEq>(kind: &str, op: &Op<D>, idx: &[usize], n: usize
         },
         "add-node" => {
             for v in 0..op.nodes.len() {
-                out.push(with_op(&|o| o.nodes[v].push(foreign[1].clone())));
-                out.push(with_op(&|o| o.nodes[v].insert(0, foreign[1].clone())));
+                push!(out, sel, with_op(&|o| o.nodes[v].push(foreign[1].clone())));
+                push!(out, sel, with_op(&|o| o.nodes[v].insert(0, foreign[1].clone())));
             }
         },
         "drop-vec" => {
             for v in 0..op.nodes.len() {
-                out.push(with_op(&|o| {
+                push!(out, sel, with_op(&|o| {
                     o.nodes.remove(v);
                 }));
             }
         },
         "add-empty-vec" => {
-            out.push(with_op(&|o| o.nodes.push(vec![])));
-            out.push(with_op(&|o| o.nodes.insert(0, vec![])));
+            push!(out, sel, with_op(&|o| o.nodes.push(vec![])));
+            push!(out, sel, with_op(&|o| o.nodes.insert(0, vec![])));
         },
         "add-vec" => {
-            out.push(with_op(&|o| o.nodes.push(vec![foreign[1].clone()])));
-            out.push(with_op(&|o| {
+            push!(out, sel, with_op(&|o| o.nodes.push(vec![foreign[1].clone()])));
+            push!(out, sel, with_op(&|o| {
                 let first = o.nodes[0].clone();
                 o.nodes.insert(0, first)
             }));
         },
         "drop-leaf" => {
             for j in 0..k {
-                out.push(with_op(&|o| {
+                push!(out, sel, with_op(&|o| {
                     o.leaves.remove(j);
                 }));
             }
         },
         "add-leaf" => {
-            out.push(with_op(&|o| o.leaves.push(foreign[1].clone())));
-            out.push(with_op(&|o| o.leaves.insert(0, foreign[1].clone())));
+            push!(out, sel, with_op(&|o| o.leaves.push(foreign[1].clone())));
+            push!(out, sel, with_op(&|o| o.leaves.insert(0, foreign[1].clone())));
         },
-        "no-indexes" => out.push((op.clone(), vec![])),
+        "no-indexes" => push!(out, sel, (op.clone(), vec![])),
         "256-indexes" => {
             let i2: Vec<usize> = (0..256).collect();
             let mut o = op.clone();
             o.leaves = (0..256).map(|i| tree_leaves[i % n].clone()).collect();
-            out.push((o, i2));
+            push!(out, sel, (o, i2));
         },
         _ => {},
     }
@@ -430,12 +461,18 @@ fn short(v: &[usize]) -> Vec<usize> {
     v.iter().take(12).cloned().collect()
 }
 
-fn negative<B: FA, H: HA<B>>(k: &Kit<H>, idx: &[usize], kind: &str, obs: &mut Obs) -> CheckResult {
+fn negative<B: FA, H: HA<B>>(k: &Kit<H>, idx: &[usize], kind: &str, max_mutants: usize, obs: &mut Obs) -> CheckResult {
     let name = H::full_name();
     let proof = k.tree.prove_batch(idx).map_err(|e| Fail::new("prove_batch/err", format!("{name}: {e}")))?;
     let op = to_op(&proof);
     let n = k.naive.num_leaves();
-    let mut ms = mutants(kind, &op, idx, n, &k.foreign, &k.naive.levels[0]);
+    let mut count = Selector { i: 0, total: 0, max: max_mutants, counting: true };
+    mutants(kind, &op, idx, n, &k.foreign, &k.naive.levels[0], &mut count);
+    let mut sel = Selector { i: 0, total: count.i, max: max_mutants, counting: false };
+    let mut ms = mutants(kind, &op, idx, n, &k.foreign, &k.naive.levels[0], &mut sel);
+    if count.i > ms.len() {
+        obs.label("mutants-subsampled");
+    }
     if kind == "internal-level-as-leaves" && k.naive.depth() >= 2 {
         // an honest opening of the tree whose leaves are the level-1 nodes: same root, depth - 1,
         // claims (position >> 1, internal node) - none of which is a committed (position, leaf) pair
@@ -710,7 +747,7 @@ fn ex_positive<B: FA, H: HA<B>>(c: &ExCase, obs: &mut Obs) -> CheckResult {
 fn ex_negative<B: FA, H: HA<B>>(c: &ExCase, obs: &mut Obs) -> CheckResult {
     let k = kit::<B, H>(c.depth, c.equal_leaves, 0);
     let idx = positions_of(c);
-    negative::<B, H>(&k, &idx, &c.kind, obs)
+    negative::<B, H>(&k, &idx, &c.kind, usize::MAX, obs)
 }
 
 #[derive(Serialize, Deserialize, Clone, Debug)]
@@ -817,7 +854,7 @@ fn sample_positive<B: FA, H: HA<B>>(c: &SampleCase, flags: &Flags, obs: &mut Obs
 fn sample_negative<B: FA, H: HA<B>>(c: &SampleCase, kind: &str, obs: &mut Obs) -> CheckResult {
     let k = kit::<B, H>(c.depth, c.equal_leaves, c.seed);
     let idx: Vec<usize> = c.idx.iter().map(|v| *v as usize).collect();
-    negative::<B, H>(&k, &idx, kind, obs)
+    negative::<B, H>(&k, &idx, kind, 10, obs)
 }
 fn sample_single<B: FA, H: HA<B>>(c: &SampleCase, kind: &str, obs: &mut Obs) -> CheckResult {
     let k = kit::<B, H>(c.depth, c.equal_leaves, c.seed);
@@ -891,7 +928,7 @@ impl SubCheck for SampledNeg {
     }
     fn rule(&self) -> String {
         format!(
-            "same trees and position sets as sampled-openings; one mutation kind per case, applied at every place it applies (batch kinds: {:?}; single-path kinds on the first position: {:?}); result must be Err unless every claimed (position, leaf) is committed, never a panic; non-trivial = at least one mutant evaluated; distinct by case",
+            "same trees and position sets as sampled-openings; one mutation kind per case, applied at every place it applies or, where there are more than 10 places, at 10-11 of them spread evenly incl. the first and last (batch kinds: {:?}; single-path kinds on the first position: {:?}); result must be Err unless every claimed (position, leaf) is committed, never a panic; non-trivial = at least one mutant evaluated; distinct by case",
             self.kinds, self.path_kinds
         )
     }
@@ -905,13 +942,7 @@ impl SubCheck for SampledNeg {
         let sel = vf_core::pick_index(c.kind, total);
         if sel < self.kinds.len() {
             let kind = self.kinds[sel];
-            // the quadratic kinds are evaluated on a prefix of large position sets
-            let mut c2 = c.clone();
-            if c2.idx.len() > 24 && matches!(kind, "pos-flipbit" | "node-substitute" | "leaf-substitute" | "drop-node" | "node-foreign" | "pos-out-of-range" | "pos-duplicate" | "drop-leaf" | "leaf-foreign" | "leaf-swap") {
-                c2.idx.truncate(24);
-                obs.label("positions-truncated-to-24");
-            }
-            with_hasher!(c.hasher, sample_negative(&c2, kind, obs))
+            with_hasher!(c.hasher, sample_negative(c, kind, obs))
         } else {
             let kind = self.path_kinds[sel - self.kinds.len()];
             with_hasher!(c.hasher, sample_single(c, kind, obs))
